@@ -24,6 +24,7 @@ type Opts struct {
 	MaxScope int // scopes per resource
 	MaxItems int // records / spans / metrics / data points / profiles / samples per parent
 	MaxList  int // every other repeated field
+	MinList  int // lower bound for every repeated field (sweeps that need every type present)
 	MaxAttr  int // attributes per map
 	ValDepth int // nesting of attribute values
 	// PSet is the probability (percent) that a scalar setter is called at all.
@@ -204,7 +205,11 @@ func (f *filler) fill(rv reflect.Value, path string) {
 	// message slice
 	if ae, ok := t.MethodByName("AppendEmpty"); ok {
 		elem := ae.Type.Out(0).Name()
-		n := rapid.IntRange(0, f.listMax(elem)).Draw(f.t, path+"#"+elem)
+		lm := f.listMax(elem)
+		if lm < f.o.MinList {
+			lm = f.o.MinList
+		}
+		n := rapid.IntRange(f.o.MinList, lm).Draw(f.t, path+"#"+elem)
 		for i := 0; i < n; i++ {
 			e := rv.MethodByName("AppendEmpty").Call(nil)[0]
 			f.fill(e, path+"/"+elem)
@@ -241,7 +246,11 @@ func (f *filler) fill(rv reflect.Value, path string) {
 		alt[strings.TrimPrefix(e, "SetEmpty")] = true
 	}
 	if len(empties) > 0 {
-		k := rapid.IntRange(0, len(empties)).Draw(f.t, path+"|oneof")
+		lo := 0
+		if f.o.MinList > 0 {
+			lo = 1
+		}
+		k := rapid.IntRange(lo, len(empties)).Draw(f.t, path+"|oneof")
 		if k > 0 {
 			e := rv.MethodByName(empties[k-1]).Call(nil)[0]
 			f.fill(e, path+"/"+strings.TrimPrefix(empties[k-1], "SetEmpty"))
